@@ -258,6 +258,7 @@ template<class V, thread_safe TS> struct Impl final : IC
 #endif
     }
     size_t size() override { return c.size(); }
+    std::pair<const void*, size_t> extent() const override { return {static_cast<const void*>(&c), sizeof(c)}; }
     bool   empty() override { return c.empty(); }
     size_t capacity() override
     {
